@@ -17,6 +17,17 @@ def run_check(pid, tier, repo, seed, write=True):
     try:
         mod = importlib.import_module(f"hyverif.rules.{pid.lower()}")
         explanation = mod.run(rep) or getattr(mod, "EXPLANATION", "")
+        from . import ckern
+        req = ckern.requested()
+        if req:
+            rid = f"R{pid[1:]}.p"
+            rep.rule(rid, "the kernels computing this property hold every floating-point value in double (no float declaration, cast or literal)")
+            for q, fn in req:
+                sites = ckern.single_precision(fn)
+                for line, what in sites:
+                    rep.violation(rid, fn["file"], fn["name"], f"{q}: {what}", "single-precision value in a kernel whose data are float64", line=line)
+                if not sites:
+                    rep.proved(rid, fn["file"], fn["name"], f"{q}: double precision throughout", line=fn.get("line", 0))
     except AnalysisError as e:
         rep.error(str(e))
     except Exception as e:           # a traceback must never look like a violation
